@@ -342,6 +342,8 @@ func c01Hostile() []string {
 		"BEGIN { o = {} ; o.pluck(o = 1) }", "BEGIN { a = [1] ; a.push(a = 5) ; a.pop(a = \"s\") ; print a }", "BEGIN { s = \"x\" ; s.split(s = 1) ; n = 2.5 ; n.floor(n = []) }",
 		"BEGIN { o = {a: 1} ; print o.pluck(o = null, \"a\"), o.length(o = 3) }", "BEGIN { a = [3,1] ; print a.sort(a = 0), a.contains(a = {}) }",
 		"BEGIN { while (match (1) { 1 => { break } }) {} }", "BEGIN { for (i = 0; match (i) { x => { continue } }; i++) {} }",
+		"function f(n) { return f(n + 1)" + rep(" + 1", 100) + " } BEGIN { print f(0) }", "function f(n) { return " + rep("!", 120) + "f(n + 1) } BEGIN { print f(0) }",
+		"function f(n) { " + rep("if (true) { ", 150) + "return f(n + 1)" + rep(" }", 150) + " } BEGIN { f(0) }", "function f(n) { return [[[[[[[[[[[[[[[[[[[[f(n + 1)]]]]]]]]]]]]]]]]]]]] } BEGIN { f(0) }",
 		"BEGIN { \"abc\".split(\"\").sort().push(1).pop().floor().round() }", "BEGIN { [1,2,3].sort(1,2).length(5) }", "BEGIN { {}.pluck() ; {a:1}.pluck(null) }", "BEGIN { for (k, v in \"\xff\xfe\") print k, v }",
 	}
 }
